@@ -39,6 +39,7 @@ type caseInfo struct {
 	Sent    *dg.Val     `json:"sent_value,omitempty"`
 	Raw     *rt.RawReq  `json:"raw_request,omitempty"`
 	Payload *dg.Val     `json:"payload,omitempty"`
+	Accept  string      `json:"accept,omitempty"`
 }
 
 type built struct {
@@ -222,11 +223,11 @@ func main() {
 				base := caseInfo{Stream: it.stream, Design: d, Key: it.bu.Key, Service: s.Name, Method: m.Name, Payload: valid[k]}
 				for _, c := range script(rng, d, s, m, it, wire[k]) {
 					ci := base
-					ci.Class, ci.ErrName, ci.Err, ci.Sent, ci.Raw = c.Class, c.ErrName, c.Err, c.Sent, c.Raw
+					ci.Class, ci.ErrName, ci.Err, ci.Sent, ci.Raw, ci.Accept = c.Class, c.ErrName, c.Err, c.Sent, c.Raw, c.Accept
 					if c.Stream != "" {
 						ci.Stream = c.Stream
 					}
-					st := rt.Step{ID: len(steps), Design: it.bu.Key, Service: s.Name, Method: m.Name, Err: c.Err, Raw: c.Raw}
+					st := rt.Step{ID: len(steps), Design: it.bu.Key, Service: s.Name, Method: m.Name, Err: c.Err, Raw: c.Raw, Accept: c.Accept}
 					if c.Raw == nil && m.Payload != nil {
 						st.Payload = d.ToTree(&m.Payload.T, valid[k])
 					}
@@ -271,7 +272,7 @@ func main() {
 		if strings.HasPrefix(ci.Class, "decode:") {
 			res.Count(ci.Class)
 		}
-		kb, _ := json.Marshal([]any{ci.Design.Name, ci.Service, ci.Method, ci.Class, ci.Err, ci.Sent, ci.Raw})
+		kb, _ := json.Marshal([]any{ci.Design.Name, ci.Service, ci.Method, ci.Class, ci.Err, ci.Sent, ci.Raw, ci.Accept})
 		distinct.Add(string(kb))
 		oracle(res, &ci, ob)
 		if ex != nil {
